@@ -230,9 +230,23 @@ def solver_function(prog, role):
         if len(out) != 1:
             raise AnalysisError('expected one initial-conditions function, found %s' % [f.qualname for f in out])
         return out[0]
+    def steady_pred(f):
+        has_copy = any(isinstance(n, ast.Call) and call_name(n) in ('deepcopy', '_GetCopy', 'copy')
+                       for n in ast.walk(f.node))
+        last_two = 0
+        for n in ast.walk(f.node):
+            if isinstance(n, ast.Subscript) and isinstance(n.slice, ast.UnaryOp) and isinstance(n.slice.op, ast.USub) \
+                    and isinstance(n.slice.operand, ast.Constant) and n.slice.operand.value in (1, 2):
+                last_two += 1
+        return has_copy and last_two >= 2
+
     if role == 'solve_all':
-        # the function looping range(1, <..>.MaxTime + 1) and calling the step function
+        # the function looping range(1, <..>.MaxTime + 1) and calling the step function; the steady-state search (which runs a copy of
+        # the solver over the copy's horizon) is not it
         def pred(f):
+            return not steady_pred(f) and loops(f)
+
+        def loops(f):
             if '/gl_book/' in f.module.rel:
                 return False
             for n in ast.walk(f.node):
@@ -242,20 +256,14 @@ def solver_function(prog, role):
             return False
         out = [f for f in funcs if pred(f)]
         if len(out) != 1:
-            out = _outermost([fl for fl in (flatten(prog, f) for f in funcs) if pred(fl)])
+            # a private helper holding the loop belongs to the function it is inlined into - also when that function is the search
+            out = [fl for fl in _outermost([fl for fl in (flatten(prog, f) for f in funcs) if pred(fl) or (loops(fl) and steady_pred(fl))])
+                   if not steady_pred(fl)]
         if len(out) != 1:
             raise AnalysisError('expected one solve-all function (range over MaxTime), found %s' % [f.qualname for f in out])
         return out[0]
     if role == 'steady_state':
-        def pred(f):
-            has_copy = any(isinstance(n, ast.Call) and call_name(n) in ('deepcopy', '_GetCopy', 'copy')
-                           for n in ast.walk(f.node))
-            last_two = 0
-            for n in ast.walk(f.node):
-                if isinstance(n, ast.Subscript) and isinstance(n.slice, ast.UnaryOp) and isinstance(n.slice.op, ast.USub) \
-                        and isinstance(n.slice.operand, ast.Constant) and n.slice.operand.value in (1, 2):
-                    last_two += 1
-            return has_copy and last_two >= 2
+        pred = steady_pred
         out = [f for f in funcs if pred(f)]
         if len(out) != 1:
             out = _outermost([fl for fl in (flatten(prog, f) for f in funcs) if pred(fl)])
